@@ -551,6 +551,9 @@ func (w *simWorld) addNode(spec *nodeSpec) *simNode {
 	}
 	w.nodes = append(w.nodes, n)
 	w.startTimers(n)
+	// whatever the constructors started (goroutines, timers at +0) settles before anybody touches the node: a first
+	// action racing with it was the one source of run-to-run divergence found by re-executing every run
+	synctest.Wait()
 	return n
 }
 
@@ -624,6 +627,7 @@ func (w *simWorld) restart(n *simNode, spec *nodeSpec) *simNode {
 	delete(w.pending, n.idx)
 	w.startTimers(nn)
 	w.rc.Count("fault.node_restart", 1)
+	synctest.Wait()
 	return nn
 }
 
